@@ -241,6 +241,10 @@ def run_check(prop, tier='quick', seed=0, only=None, nproc=None, verbose=True):
         for cex in r.get('cex', []):
             n_replays += 1
             rep = replay_subprocess(modname, job, cex)
+            if not rep.get('reproduced') and rep.get('abstract'):
+                inconclusive.append('%s: abstract counterexample (not realisable as it stands): cex=%r %s' % (key, cex, rep.get('detail')))
+                o['verdict'] = 'inconclusive'
+                continue
             if not rep.get('reproduced'):
                 harness_errors.append('%s: counterexample did not replay: cex=%r replay=%r' % (key, cex, rep))
                 o['verdict'] = 'harness-error'
